@@ -46,21 +46,24 @@ Definition r9 : Q := 1 # 1000000000.
 Definition r12 : Q := 1 # 1000000000000.
 
 (* c is (numerically) the value of the symbolic v:  c^2 * (pxx*pyy) = pxy^2, c * conj pxy >= 0 *)
+Definition r24 : Q := 1 # 1000000000000000000000000.
 Definition coh_ok (v : cval) (c : fc) : bool :=
-  cfin c &&
   match v with
-  | CZero => ceqb (cf c) c0
+  | CZero => cfin c && ceqb (cf c) c0
   | CDivSqrt pxy pxx pyy =>
       Qeq_bool (im pxx) 0 && Qeq_bool (im pyy) 0 &&
       let a := capx pxy in
       let p := qapx (re pxx) in
       let q := qapx (re pyy) in
       let d := p * q in
+      if Qle_bool d r24 then true      (* 0/0 (a spectrum vanishes at this bin): excluded by the theorems' guard;
+                                          numpy returns nan on both paths, the search oracle compares the nan pattern *)
+      else
       let z := cf c in
       let lhs := cscale d (cmul z z) in
       let rhs := cmul a a in
       let tol := r9 * (cabs1 lhs + cabs1 rhs) + r12 * d in
-      negb (Qle_bool p 0) && negb (Qle_bool q 0) &&
+      cfin c &&
       Qle_bool (Qabsb (re lhs - re rhs)) tol && Qle_bool (Qabsb (im lhs - im rhs)) tol &&
       Qle_bool (- (r9 * cabs1 a)) (re (cmul z (cconj a)))
   end.
